@@ -441,6 +441,23 @@ func RunSession(spec *SessSpec) *Trace {
 		}
 		env.Sim.SetFailover(uint16(vb), f)
 	}
+	collFail := new(int32)
+	for _, st := range spec.Steps {
+		if st.Op == "collfail" {
+			// the node refuses the next collection-id lookup (unknown collection), later ones are answered again
+			prevHook := env.Sim.Hook
+			env.Sim.Hook = func(r *cbsim.Req) *cbsim.Action {
+				if r.Op == cbsim.OpGetCollID && atomic.AddInt32(collFail, -1) >= 0 {
+					return &cbsim.Action{HasStatus: true, Status: 0x88}
+				}
+				if prevHook != nil {
+					return prevHook(r)
+				}
+				return nil
+			}
+			break
+		}
+	}
 	if spec.RollbackMitigation {
 		prevHook := env.Sim.Hook
 		env.Sim.Hook = func(r *cbsim.Req) *cbsim.Action {
@@ -991,6 +1008,10 @@ func RunSession(spec *SessSpec) *Trace {
 				ck.Store = s.readStore()
 				tr.Checks = append(tr.Checks, ck)
 			}
+		case "collfail":
+			atomic.StoreInt32(collFail, 1)
+			env.Log.Add(evlog.Rec{K: "ctl.collfail", VB: -1})
+			drv.NoteFlush("collfail armed")
 		case "clearfail": // disarm "failnext" (a Commit() with nothing to save does not reach the store)
 			atomic.StoreInt32(&s.failNext, 0)
 		case "check":
